@@ -28,7 +28,7 @@ From Coq Require Import String.
 From H2V Require Import Base.Tac Base.Bytes Gen.StaticTable Model.HttpTokens Model.HpackInt.
 Local Open Scope N_scope.
 
-Definition field : Type := (list N * list N)%type.
+Notation field := (list N * list N)%type (only parsing).
 
 Definition field_eqb (a b : field) : bool :=
   list_N_eqb (fst a) (fst b) && list_N_eqb (snd a) (snd b).
